@@ -639,6 +639,102 @@ theorem elab_rejects_rvalue_out_arg_chain_partial {Γ : Env} {dbg : Bool} {name 
     exact ⟨i, p, τ, hp, hti, hio, chain_members_rvalue names base b0 τ0 _ hb hv he⟩
 
 
+/-! ## intrinsic functions -/
+
+theorem selected_is_cand {cands : List Cand} {args : List ETy} {i : Nat}
+    (h : resolve cands args = .selected i) : ∃ c ∈ cands, c.id = i := by
+  rcases resolve_cases cands args with hp | hr
+  · rw [hp] at h; simp at h
+  · rw [hr] at h
+    obtain ⟨rc, hf⟩ := resolveRanked_selected h
+    have hm : (i, rc) ∈ rankedList cands args :=
+      winners_subset (finals_subset (by rw [hf]; exact List.mem_cons_self))
+    obtain ⟨c, hc, hrc⟩ := mem_rankedList.mp hm
+    exact ⟨c, hc, (rankCand_id hrc).symm⟩
+
+theorem candsFrom_mem (name : Nat) : ∀ (fs : List FuncSig) (k : Nat) (c : Cand),
+    c ∈ RsslVerif.Model.Elab.candsFrom name fs k → ∃ s, fs[c.id - k]? = some s ∧ s.name = name ∧ k ≤ c.id
+  | [], _, _, h => by simp [RsslVerif.Model.Elab.candsFrom] at h
+  | s :: r, k, c, h => by
+    simp only [RsslVerif.Model.Elab.candsFrom] at h
+    split at h
+    · rename_i hn
+      rcases List.mem_cons.mp h with rfl | h
+      · exact ⟨s, by simp, hn, Nat.le_refl _⟩
+      · obtain ⟨s', h1, h2, h3⟩ := candsFrom_mem name r (k + 1) c h
+        refine ⟨s', ?_, h2, by omega⟩
+        have : c.id - k = (c.id - (k + 1)) + 1 := by omega
+        rw [this]; simpa using h1
+    · obtain ⟨s', h1, h2, h3⟩ := candsFrom_mem name r (k + 1) c h
+      refine ⟨s', ?_, h2, by omega⟩
+      have : c.id - k = (c.id - (k + 1)) + 1 := by omega
+      rw [this]; simpa using h1
+
+/-- **Accepted calls of intrinsic functions resolve into the re-extracted signature table.**  In an environment whose function
+    registry starts with the intrinsic functions (`Module::create`) and whose user functions have other names, an accepted
+    call of the intrinsic named `names[n]` elaborates to `Call(FunctionId(f), args)` where entry `f` of
+    `Gen.IntrinsicSigs.sigs` is a signature of that name, the call has that signature's return type, and every argument has
+    exactly the type of its parameter. -/
+theorem elab_intrinsic_call_exact {Γ : Env} {dbg : Bool} {v n : Nat} {user : List FuncSig} {args : SArgs} {e' : IExpr} {τ : ETy}
+    (hΓ : Γ.funcs = RsslVerif.Model.Intrinsics.intrinsicFuncs v ++ user)
+    (hu : ∀ s ∈ user, s.name < RsslVerif.Model.Intrinsics.intrinsicBase)
+    (h : elabE dbg Γ (.call (RsslVerif.Model.Intrinsics.intrinsicBase + n) args) = .ok (e', τ)) :
+    ∃ f sig as' us, e' = .call f as' ∧ RsslVerif.Gen.IntrinsicSigs.sigs[f]? = some sig ∧ sig.name = n ∧
+      τ = (RsslVerif.Model.Intrinsics.toTy v sig.ret).r ∧ HasArgs Γ as' us ∧
+      ArgsMatch us (RsslVerif.Model.Intrinsics.toFuncSig v sig).params := by
+  obtain ⟨id, s, as', us, rfl, hs, rfl, hargs, hmatch⟩ := elab_call_args_exact h
+  -- the selected id is one of the candidates of that name
+  have hname : s.name = RsslVerif.Model.Intrinsics.intrinsicBase + n := by
+    simp only [elabE] at h
+    split at h
+    · simp at h
+    · split at h
+      · simp at h
+      · split at h
+        · simp at h
+        · split at h
+          · simp at h
+          · rename_i nn τn hn
+            obtain ⟨hnn, _⟩ := selfCheck_type h
+            unfold elabCall at hn
+            split at hn
+            · simp at hn
+            · simp at hn
+            · simp at hn
+            · rename_i id' hsel
+              obtain ⟨c, hc, hid⟩ := selected_is_cand hsel
+              obtain ⟨s', hs', hn', _⟩ := candsFrom_mem _ _ 0 c hc
+              split at hn
+              · simp at hn
+              · rename_i s'' hs''
+                split at hn
+                · simp at hn
+                · simp at hn
+                  obtain ⟨hcall, _⟩ := hn
+                  rw [← hcall] at hnn
+                  simp at hnn
+                  obtain ⟨rfl, _⟩ := hnn
+                  simp at hs'
+                  rw [hid] at hs'
+                  rw [hs] at hs'
+                  simp at hs'; subst hs'
+                  exact hn'
+  rw [hΓ] at hs
+  by_cases hlt : id < (RsslVerif.Model.Intrinsics.intrinsicFuncs v).length
+  · rw [List.getElem?_append_left hlt] at hs
+    simp only [RsslVerif.Model.Intrinsics.intrinsicFuncs, List.getElem?_map] at hs
+    cases hsig : RsslVerif.Gen.IntrinsicSigs.sigs[id]? with
+    | none => simp [hsig] at hs
+    | some sig =>
+      simp [hsig] at hs
+      subst hs
+      refine ⟨id, sig, as', us, rfl, hsig, ?_, rfl, hargs, hmatch⟩
+      simp [RsslVerif.Model.Intrinsics.toFuncSig] at hname
+      exact hname
+  · rw [List.getElem?_append_right (by omega)] at hs
+    have := hu s (List.mem_of_getElem? hs)
+    omega
+
 /-! ## what the judgment says about the new nodes (consequences of `HasType`) -/
 
 /-- a typed swizzle selects at least one component, and only components its operand has -/
